@@ -27,6 +27,12 @@ var c11Funcs = []defFunc{
 }
 
 func buildC11(id string, srcPtr, tgtPtr bool, df defFunc, du string, zero bool, methodErr bool) *Scenario {
+	return buildC11x(id, srcPtr, tgtPtr, df, du, zero, methodErr, false)
+}
+
+// buildC11x: nestedFallible adds a nested named struct whose conversion needs an error-returning extend function, so
+// that the generated sub-method gains an error result after the method with the default was first built (rebuild).
+func buildC11x(id string, srcPtr, tgtPtr bool, df defFunc, du string, zero bool, methodErr bool, nestedFallible bool) *Scenario {
 	sc := &Scenario{ID: "D" + id, PropGen: "C11", PropVal: "C11", Test: "Convert", Funcs: map[string]string{},
 		Desc: map[string]any{"class": fmt.Sprintf("srcptr=%v tgtptr=%v func=%s", srcPtr, tgtPtr, df.name), "default_update": du, "zero": zero, "method_err": methodErr}}
 	sd := &space.Decl{Pkg: "in", Name: "S" + id, Under: space.St(f("A", tInt), f("B", tStr), f("P", space.P(tInt)), f("M", space.M(tStr, space.P(tInt))), f("Q", space.P(space.P(tInt))))}
@@ -34,6 +40,20 @@ func buildC11(id string, srcPtr, tgtPtr bool, df defFunc, du string, zero bool, 
 	sc.Decls = []*space.Decl{sd, td}
 	conv := &model.Converter{OutPkg: "conv/generated", LitPkg: "conv"}
 	sc.Conv = conv
+	if nestedFallible {
+		ns := &space.Decl{Pkg: "in", Name: "N" + id, Under: space.St(f("V", tInt))}
+		nt := &space.Decl{Pkg: "out", Name: "N" + id, Under: space.St(f("V", tStr))}
+		sd.Under = space.St(append(sd.Under.Fields, f("Nest", space.N(ns)))...)
+		tf := td.Under.Fields
+		td.Under = space.St(append(append([]space.Field{}, tf[:len(tf)-1]...), f("Nest", space.N(nt)), tf[len(tf)-1])...)
+		sc.Decls = append(sc.Decls, ns, nt)
+		fn := "Fal" + id
+		sc.ConvLines = append(sc.ConvLines, "extend "+fn)
+		sc.FuncsSrc += fmt.Sprintf("func %s(s int) (string, error) {\n\tif s < 0 { return \"\", &Boom{V: s} }\n\treturn fmt.Sprint(\"n\", s), nil\n}\n", fn)
+		conv.Extends = append(conv.Extends, &model.Custom{Name: fn, Src: tInt, Dst: tStr, Err: true})
+		sc.Funcs[fn] = "conv." + fn
+		sc.Desc["class"] = sc.Desc["class"].(string) + " nested-fallible"
+	}
 	sT, tT := space.N(sd), space.N(td)
 	srcT, dstT := sT, tT
 	if srcPtr {
@@ -96,6 +116,9 @@ func buildC11(id string, srcPtr, tgtPtr bool, df defFunc, du string, zero bool, 
 		cust.ArgsFmt = []string{}
 	}
 	lit := fmt.Sprintf("%s{A: 77, B: \"dflt\", P: &seven%s, Keep: \"kept\"}", tT.Go("conv"), id)
+	if nestedFallible {
+		lit = fmt.Sprintf("%s{A: 77, B: \"dflt\", P: &seven%s, Keep: \"kept\", Nest: %s{V: \"dn\"}}", tT.Go("conv"), id, space.N(sc.Decls[3]).Go("conv"))
+	}
 	val := lit
 	if df.ptrRes {
 		val = "&" + lit
@@ -118,7 +141,7 @@ func buildC11(id string, srcPtr, tgtPtr bool, df defFunc, du string, zero bool, 
 	if df.takeSrc {
 		ret = "_ = s; " + ret
 	}
-	sc.FuncsSrc = fmt.Sprintf("var seven%s = 7\n\n%sfunc %s(%s) %s { %s }\n", id, doc, fn, joinComma(params), res, ret)
+	sc.FuncsSrc += fmt.Sprintf("var seven%s = 7\n\n%sfunc %s(%s) %s { %s }\n", id, doc, fn, joinComma(params), res, ret)
 	sc.Funcs[fn] = "conv." + fn
 	result := dstT.Go("conv")
 	if methodErr {
@@ -152,11 +175,15 @@ func C11Scenarios(tier string) []*Scenario {
 				for _, du := range []string{"", "method", "converter", "converter-yes-method-no"} {
 					for _, zero := range []bool{false, true} {
 						for _, me := range []bool{false, true} {
-							if !df.err && me && tier != "thorough" {
+							if !df.err && me && tier != "thorough" && !(df.name == "plain" || df.name == "ptr-result") {
 								continue
 							}
 							n++
 							out = append(out, buildC11(fmt.Sprintf("%05d", n), sp, tp, df, du, zero, me))
+							if me && df.bad == "" && !zero {
+								n++
+								out = append(out, buildC11x(fmt.Sprintf("%05d", n), sp, tp, df, du, zero, me, true))
+							}
 						}
 					}
 				}
